@@ -52,6 +52,7 @@ type assertWorld struct {
 	h     map[string]http.Handler // router -> handler
 	at    map[string]string       // router+client -> a live access token issued to that client
 	dyn   map[string]http.Handler // router -> handler of the issuer-from-host provider over the same storage
+	setup []string                // fitting set-up requests the provider refused (reported with every case)
 }
 
 var (
@@ -109,7 +110,8 @@ func assertWorldFor(delegation bool) *assertWorld {
 		good := buildAssertion(M{"iss": "A", "sub": "iss", "aud": "issuer", "exp": 3600, "iat": -3, "by": "a2", "kid": "ka2", "alg": "ES256", "edit": "none"}, time.Now())
 		r := postForm(w.dyn[router], "/oauth/token", url.Values{"grant_type": {string(oidc.GrantTypeBearer)}, "assertion": {good}, "scope": {"openid"}})
 		if r.Status != 200 {
-			panic("harness: jwt-bearer grant at tenant 1 of the issuer-from-host provider failed: " + r.Body)
+			// not a harness failure: the provider refuses a fitting assertion. The cases go on; the completeness rules report it.
+			w.setup = append(w.setup, "jwt-bearer grant at tenant 1 of the issuer-from-host provider refused: "+r.Body)
 		}
 	}
 	// one long-lived access token per router and client, for the introspection identity probe
@@ -130,7 +132,7 @@ func assertWorldFor(delegation bool) *assertWorld {
 			}
 			json.Unmarshal([]byte(r.Body), &body)
 			if body.AccessToken == "" {
-				panic("harness: could not prepare an access token for the introspection probe: " + r.Body)
+				w.setup = append(w.setup, "no access token for the introspection probe of client "+client+": "+r.Body)
 			}
 			w.at[router+client] = body.AccessToken
 		}
@@ -232,7 +234,7 @@ func AssertionCase(c *Case) M {
 		if deleg {
 			opts = append(opts, op.SubjectCheck(func(*oidc.JWTTokenRequest) error { return nil }))
 		}
-		v := op.NewJWTProfileVerifier(w.store, opdrv.Issuer, time.Duration(I(cfg, "maxAge"))*time.Second, 0, opts...)
+		v := op.NewJWTProfileVerifier(w.store, opdrv.Issuer, time.Duration(I(cfg, "maxAge"))*time.Second, time.Duration(I(cfg, "offset"))*time.Second, opts...)
 		var req *oidc.JWTTokenRequest
 		var err error
 		if p := CatchPanic(func() { req, err = op.VerifyJWTAssertion(context.Background(), assertion, v) }); p != "" {
@@ -276,6 +278,9 @@ func AssertionCase(c *Case) M {
 		req := httptest.NewRequest(http.MethodPost, opdrv.TenantB+"/oauth/token", strings.NewReader(form.Encode()))
 		req.Header.Set("Content-Type", "application/x-www-form-urlencoded")
 		o["tenant"+router] = tokenOutcome(w, opdrv.Serve(w.dyn[router], req))
+	}
+	if len(w.setup) > 0 {
+		o["setup"] = w.setup
 	}
 	return o
 }
